@@ -177,10 +177,7 @@ where
         let old_key = insert(ctx.state_mut(), key_ident, cloned_key.into());
         let old_value = insert(ctx.state_mut(), value_ident, cloned_value);
 
-        let result = match (self.runner)(ctx) {
-            Ok(value) | Err(ExpressionError::Return { value, .. }) => Ok(value),
-            err @ Err(_) => err,
-        };
+        let result = self.run(ctx);
 
         // Restore the shadowed variables whether or not the closure failed.
         cleanup(ctx.state_mut(), key_ident, old_key);
@@ -210,7 +207,7 @@ where
         let old_index = insert(ctx.state_mut(), index_ident, index.into());
         let old_value = insert(ctx.state_mut(), value_ident, cloned_value);
 
-        let result = (self.runner)(ctx);
+        let result = self.run(ctx);
 
         // Restore the shadowed variables whether or not the closure failed.
         cleanup(ctx.state_mut(), index_ident, old_index);
@@ -233,7 +230,7 @@ where
         let ident = self.ident(0);
         let old_key = insert(ctx.state_mut(), ident, cloned_key.into());
 
-        let result = (self.runner)(ctx);
+        let result = self.run(ctx);
 
         // Restore the shadowed variable whether or not the closure failed.
         cleanup(ctx.state_mut(), ident, old_key);
@@ -257,7 +254,7 @@ where
         let ident = self.ident(0);
         let old_value = insert(ctx.state_mut(), ident, cloned_value);
 
-        let result = (self.runner)(ctx);
+        let result = self.run(ctx);
 
         // Restore the shadowed variable whether or not the closure failed.
         cleanup(ctx.state_mut(), ident, old_value);
@@ -265,6 +262,15 @@ where
         *value = result?;
 
         Ok(())
+    }
+
+    /// Run the closure body once. A `return` inside the body ends the current
+    /// iteration, with the returned value as the result of that iteration.
+    fn run(&self, ctx: &mut Context) -> Result<Value, ExpressionError> {
+        match (self.runner)(ctx) {
+            Ok(value) | Err(ExpressionError::Return { value, .. }) => Ok(value),
+            err @ Err(_) => err,
+        }
     }
 
     fn ident(&self, index: usize) -> Option<&Ident> {
